@@ -114,6 +114,15 @@ func VH_C11_Collect() {
 			if len(bk.calls) > 0 {
 				who = -1 // the hand has moved on: later responses belong to the next state
 			}
+			// a stray pass (not a response) from anybody — the current player included — while the
+			// collection is pending: the hand engine would silently ignore it and hand the same
+			// request state back, which re-arms the collection and discards the answers already
+			// given, so the wrapper has to refuse it (the other action kinds are refused by the
+			// hand engine itself: C10 ActionEngine)
+			if verifrt.BoolI("stray", s) && len(bk.calls) == 0 {
+				_, serr := g.Pass(verifrt.IntRangeI("straywho", s, 0, m))
+				verifrt.Assert(serr != nil && len(bk.calls) == 0, "a pass is not a response: it is refused at a collection point and does not reach the hand engine")
+			}
 			if who >= 0 {
 				var err error
 				if which == 0 {
